@@ -17,6 +17,7 @@ excluded case really is reported:
 * `math.abs(-"1")`     — unary minus / `+ - * /` give the *operand's* type, so arithmetic on
                           string-typed operands is called a string (`Doc.tame` excludes it).
 -/
+import Selene.Std.ProgCall
 import Selene.Std.CallLemmas
 namespace Selene.Props.C05
 open Selene.Std Selene.Std.Doc
@@ -249,5 +250,96 @@ example : satisfies absF (callP [.number "1"]) := by
 example : checkCall absF (callP [.number "1"]) = [] := by decide
 example : checkCall absF (callP [.call]) = [] ∧ checkCall maxF (callP [.vararg]) = [] := by decide
 example : checkField (.property .readOnly) (callP []) = [.notFunction] := by decide
+
+/-! ## The same, at every call site of every program
+
+`Std/Prog.lean` is the lint as it walks a whole syntax tree (which nodes it visits, the gate on the root
+identifier, how the name path and the call suffix are read off, ranges); `LibCall` says that a call node is
+a call of the library function `fb` — root not bound by the script, path resolved by the lookup of C06 —
+with call shape `c`.  At such a site the lint's diagnostics are exactly `checkCall fb c`
+(`Prog.stdCall_kinds`), so the theorems above hold there. -/
+
+open Selene.Std.Prog Selene.Lua in
+/-- **C05 (count) at a call site.** In any program, at any call of a library function written in the
+definition's call style, a count problem is reported iff the number of syntactic arguments lies outside the
+documented range — or the call is over-full and open (the recorded finding). -/
+theorem C05_prog_count (l : SegLib) (R : Nat → Bool) (sp : Span) (t : Tok) (ss : SuffixList) (path : List String)
+    (fb : FunctionBehavior) (c : Call) (h : LibCall l R t ss path fb c) (hs : fb.method = c.isMethod) :
+    (∃ g ∈ stdCall l R (.mk sp (.name t) ss), ∃ pr, g.kind = .call pr ∧ pr.isCount = true) ↔
+      (countOutside fb c = true ∨ overfullOpen fb c = true) := by
+  rw [← C05_count fb c hs]
+  unfold hasCountProblem
+  rw [List.any_eq_true]
+  have hk := stdCall_kinds l R sp t ss path fb c h
+  constructor
+  · rintro ⟨g, hg, pr, hgk, hpr⟩
+    have : g.kind ∈ (stdCall l R (.mk sp (.name t) ss)).map (·.kind) := List.mem_map.mpr ⟨g, hg, rfl⟩
+    rw [hk, hgk] at this
+    obtain ⟨pr', hpr', heq⟩ := List.mem_map.mp this
+    injection heq with heq
+    exact ⟨pr, heq ▸ hpr', hpr⟩
+  · rintro ⟨pr, hpr, hc⟩
+    have : Kind.call pr ∈ (stdCall l R (.mk sp (.name t) ss)).map (·.kind) := by
+      rw [hk]; exact List.mem_map.mpr ⟨pr, hpr, rfl⟩
+    obtain ⟨g, hg, hgk⟩ := List.mem_map.mp this
+    exact ⟨g, hg, pr, hgk, hc⟩
+
+open Selene.Std.Prog Selene.Lua in
+/-- **C05 (style) at a call site.** `.`/`:` misuse is reported exactly when the call style differs from the
+definition — and then it is the only thing reported. -/
+theorem C05_prog_style (l : SegLib) (R : Nat → Bool) (sp : Span) (t : Tok) (ss : SuffixList) (path : List String)
+    (fb : FunctionBehavior) (c : Call) (h : LibCall l R t ss path fb c) :
+    (∃ g ∈ stdCall l R (.mk sp (.name t) ss), ∃ pr, g.kind = .call pr ∧ pr.isStyle = true) ↔ fb.method ≠ c.isMethod := by
+  rw [← C05_style fb c]
+  unfold hasStyleProblem
+  rw [List.any_eq_true]
+  have hk := stdCall_kinds l R sp t ss path fb c h
+  constructor
+  · rintro ⟨g, hg, pr, hgk, hpr⟩
+    have : g.kind ∈ (stdCall l R (.mk sp (.name t) ss)).map (·.kind) := List.mem_map.mpr ⟨g, hg, rfl⟩
+    rw [hk, hgk] at this
+    obtain ⟨pr', hpr', heq⟩ := List.mem_map.mp this
+    injection heq with heq
+    exact ⟨pr, heq ▸ hpr', hpr⟩
+  · rintro ⟨pr, hpr, hc⟩
+    have : Kind.call pr ∈ (stdCall l R (.mk sp (.name t) ss)).map (·.kind) := by
+      rw [hk]; exact List.mem_map.mpr ⟨pr, hpr, rfl⟩
+    obtain ⟨g, hg, hgk⟩ := List.mem_map.mp this
+    exact ⟨g, hg, pr, hgk, hc⟩
+
+open Selene.Std.Prog Selene.Lua in
+/-- **C05 (clean) at a call site.** In any program, a call of a library function that satisfies the definition
+(outside the two recorded deviations) draws no diagnostic at all. -/
+theorem C05_prog_clean (l : SegLib) (R : Nat → Bool) (sp : Span) (t : Tok) (ss : SuffixList) (path : List String)
+    (fb : FunctionBehavior) (c : Call) (h : LibCall l R t ss path fb c) (ht : tameArgs c.args = true)
+    (hno : overfullOpen fb c = false) (hsat : satisfies fb c) : stdCall l R (.mk sp (.name t) ss) = [] := by
+  have hk := stdCall_kinds l R sp t ss path fb c h
+  rw [C05_clean fb c ht hno hsat] at hk
+  simpa using hk
+
+open Selene.Std.Prog Selene.Lua in
+/-- **C05 (types) at a call site.** Every type problem reported at a call of a library function whose arguments
+are `tame` is a definite mismatch. -/
+theorem C05_prog_types (l : SegLib) (R : Nat → Bool) (sp : Span) (t : Tok) (ss : SuffixList) (path : List String)
+    (fb : FunctionBehavior) (c : Call) (h : LibCall l R t ss path fb c) (ht : tameArgs c.args = true)
+    (g : PDiag) (hg : g ∈ stdCall l R (.mk sp (.name t) ss)) (i : Nat) (ty : ArgType) (p : Passed)
+    (hk : g.kind = .call (.type i ty p)) : definitelyWrong fb c i = true := by
+  have hks := stdCall_kinds l R sp t ss path fb c h
+  have : g.kind ∈ (stdCall l R (.mk sp (.name t) ss)).map (·.kind) := List.mem_map.mpr ⟨g, hg, rfl⟩
+  rw [hks, hk] at this
+  obtain ⟨pr', hpr', heq⟩ := List.mem_map.mp this
+  injection heq with heq
+  exact C05_types fb c ht i ty p (heq ▸ hpr')
+
+open Selene.Std.Prog Selene.Lua in
+/-- non-vacuity: `math.floor()` as a statement of a program — a `LibCall`, reported "requires 1 parameters, 0 passed" -/
+example :
+    let lib : SegLib := { globals := [(["math", "floor"], { kind := .function { args := [{ type := .number }] } })], structs := [] }
+    let ss : SuffixList := .cons (.dot ⟨1, 2⟩ ⟨2, "floor"⟩) (.cons (.args ⟨3, 4⟩ (.parens ⟨3, 4⟩ .nil)) .nil)
+    LibCall lib (fun _ => false) ⟨0, "math"⟩ ss ["math", "floor"] { args := [{ type := .number }] } { isMethod := false, args := .parens [] } ∧
+    (stdCall lib (fun _ => false) (.mk ⟨0, 4⟩ (.name ⟨0, "math"⟩) ss)).map (·.message.1) =
+      ["standard library function `math.floor` requires 1 parameters, 0 passed"] := by
+  intro lib ss
+  refine ⟨⟨rfl, by decide, ⟨none, by decide⟩, ⟨.args ⟨3, 4⟩ (.parens ⟨3, 4⟩ .nil), rfl, rfl⟩⟩, by decide⟩
 
 end Selene.Props.C05
